@@ -54,6 +54,16 @@ class WorkerState:
 
     def judge(self, spec):
         """Judge one spec; returns the violations that are not covered by an open finding."""
+        self.judged = getattr(self, "judged", 0) + 1
+        if self.judged % 120 == 0:
+            # every compiled XLA executable keeps memory mappings alive; a worker that judges
+            # thousands of differently shaped models would exhaust vm.max_map_count (LLVM then aborts)
+            import gc
+
+            import jax
+
+            jax.clear_caches()
+            gc.collect()
         out = self.mod.judge(spec, self.tier)
         self.evals += out.evals
         self.nontrivial.update(out.nontrivial_keys)
@@ -283,8 +293,10 @@ def main(argv=None):
         return 2
 
     if a.replay:
-        with ctx.Pool(1) as pool:
-            r = pool.map(_replay_worker, [(cid, tier, [a.replay])])[0]
+        from concurrent.futures import ProcessPoolExecutor
+
+        with ProcessPoolExecutor(max_workers=1, mp_context=ctx) as pool:
+            r = pool.submit(_replay_worker, (cid, tier, [a.replay])).result()
         if r["error"]:
             print(r["error"])
             return 2
@@ -321,14 +333,30 @@ def main(argv=None):
     jobs = [
         (cid, tier, seed, w, nworkers, budget, shrink_budget, deadline) for w in range(nworkers)
     ]
-    with ctx.Pool(nworkers) as pool:
-        rep_async = None
+    # ProcessPoolExecutor (not mp.Pool): a worker killed by the OS / aborted by LLVM surfaces as
+    # BrokenProcessPool instead of hanging the run; it is reported as a harness error (exit 2)
+    from concurrent.futures import ProcessPoolExecutor
+
+    rep_results, results = [], []
+    pool_error = None
+    with ProcessPoolExecutor(max_workers=nworkers, mp_context=ctx) as pool:
+        rep_f = []
         if files:
             shards = [files[i::4] for i in range(min(4, len(files)))]
-            rep_async = pool.map_async(_replay_worker, [(cid, tier, s) for s in shards])
-        gen_async = pool.map_async(_worker, jobs, chunksize=1)
-        rep_results = rep_async.get() if rep_async else []
-        results = gen_async.get()
+            rep_f = [pool.submit(_replay_worker, (cid, tier, s)) for s in shards]
+        gen_f = [pool.submit(_worker, j) for j in jobs]
+        for f in rep_f:
+            try:
+                rep_results.append(f.result())
+            except BaseException as e:  # noqa: BLE001
+                pool_error = f"replay worker died: {type(e).__name__}: {e}"
+        for w, f in enumerate(gen_f):
+            try:
+                results.append(f.result())
+            except BaseException as e:  # noqa: BLE001
+                pool_error = f"worker {w} died: {type(e).__name__}: {e}"
+    if pool_error:
+        errors.append(pool_error)
 
     # optional second engine (coverage-guided fuzzing): parallel subprocesses, results merged below
     fuzz = {"engine": None, "execs": 0, "judged": 0, "distinct_nontrivial": 0, "processes": 0, "violations": []}
